@@ -241,6 +241,22 @@ fn hostile_value(g: &mut Rng) -> Vec<u8> {
 }
 
 /// one grammar-aware mutation of a valid request
+fn point_mutate(g: &mut Rng, v: &mut Vec<u8>) {
+    let c = if g.chance(2, 3) { *g.pick(b" !\"#$%&'()*+,-./:;<=>?@[]^_`{|}~") } else { 0x21 + g.below(0x5e) as u8 };
+    if v.is_empty() {
+        v.push(c);
+        return;
+    }
+    let i = g.usize_below(v.len());
+    match g.below(4) {
+        0 => {
+            v.remove(i);
+        }
+        1 => v.insert(i, c),
+        _ => v[i] = c,
+    }
+}
+
 fn mutate(g: &mut Rng, base: &RawRequest) -> (String, RawRequest) {
     let mut r = base.clone();
     let (path, q) = crate::oracle::sig::split_uri(&base.uri);
@@ -249,7 +265,32 @@ fn mutate(g: &mut Rng, base: &RawRequest) -> (String, RawRequest) {
         Some(q) => format!("{p}?{q}"),
         None => p.to_owned(),
     };
-    match g.below(16) {
+    match g.below(19) {
+        16 | 17 => {
+            // point mutation of one header value: one byte replaced by / removed / inserted as a
+            // printable ASCII character (punctuation twice as likely as the rest)
+            if r.headers.is_empty() {
+                return ("point-mutation/no-header".into(), r);
+            }
+            let auth_like: Vec<usize> = r.headers.iter().enumerate().filter(|(_, (k, _))| k.starts_with("x-amz-") || k == "authorization" || k == "date" || k == "range" || k.starts_with("content-") || k.starts_with("if-")).map(|x| x.0).collect();
+            let i = if !auth_like.is_empty() && g.chance(3, 4) { *g.pick(&auth_like) } else { g.usize_below(r.headers.len()) };
+            let name = r.headers[i].0.clone();
+            point_mutate(g, &mut r.headers[i].1);
+            (format!("point-mutation/header/{}", if name.starts_with("x-amz-meta") { "x-amz-meta-*".to_owned() } else { name }), r)
+        }
+        18 => {
+            // point mutation of one query value
+            let Some(qs) = q.clone().filter(|x| !x.is_empty()) else { return ("point-mutation/no-query".into(), r) };
+            let mut pairs: Vec<String> = qs.split('&').map(str::to_owned).collect();
+            let i = g.usize_below(pairs.len());
+            let (k, v) = pairs[i].split_once('=').map_or((pairs[i].clone(), String::new()), |(k, v)| (k.to_owned(), v.to_owned()));
+            let mut vb = v.into_bytes();
+            point_mutate(g, &mut vb);
+            vb.retain(|b| !matches!(*b, b'&' | b'#' | b' ' | b'"' | b'<' | b'>' | b'\\' | b'^' | b'`' | b'{' | b'|' | b'}'));
+            pairs[i] = format!("{k}={}", String::from_utf8_lossy(&vb));
+            r.uri = format!("{path}?{}", pairs.join("&"));
+            (format!("point-mutation/query/{}", if k.len() > 24 { "long-name" } else { &k }), r)
+        }
         0 => {
             let h = *g.pick(HOSTILE_HEADERS);
             r.headers.retain(|(k, _)| !k.eq_ignore_ascii_case(h));
@@ -454,7 +495,7 @@ pub fn run(ctx: &RunCtx) -> i32 {
         }
     }
     let corpus_ref = &corpus;
-    let n = ctx.tier.sz(60_000, 6_000_000);
+    let n = ctx.tier.sz(600_000, 12_000_000);
     let per = 1000u64;
     let tot = par_run(ctx.workers, n.div_ceil(per), |j, r| {
         let rt = new_runtime();
